@@ -184,7 +184,7 @@ def check_reactors(report, db, P, R3):
     from .. import shared as _shared
     from ..pathsum import struct, show
     S = _shared.summariser(db, CallGraph(db))
-    me = ('sym', init.params[0])
+    me = ('sym', init.all_params[0])
     nstores = 0
     for p in S.run(init):
         if not p.returns:
@@ -218,7 +218,7 @@ def check_reactors(report, db, P, R3):
             ctx_ok = key_ok and it_ok and struct(key[2][0]) == \
                 struct(it[2][0]) and struct(it[2][0]) in (
                     ('attr', ('attr', me, 'connection'), 'context'),
-                    ('attr', ('sym', init.params[1]), 'context'))
+                    ('attr', ('sym', init.all_params[1]), 'context'))
             if key_ok and it_ok and ctx_ok:
                 good = True
             else:
